@@ -184,6 +184,7 @@ class RepoInterp:
         self.forked: List[str] = []
         self.interp = _OracleInterp(self)
         self.interp.on_with = self.on_with  # type: ignore[attr-defined]
+        self.interp.on_with_object = self.on_with_object  # type: ignore[attr-defined]
 
     # ---- hooks ---------------------------------------------------------------
     def on_name(self, name: str, st: State) -> Optional[V]:
@@ -209,6 +210,9 @@ class RepoInterp:
                 finally:
                     self.cur_fi = saved
             return S("mod:" + target)
+        if self.cur_fi.cls is not None and self.cur_fi.qualname.endswith(".<class body>") and name in self.cur_fi.cls.methods:
+            # inside a class body a method's bare name denotes the plain function (`TABLE = (method_a, method_b)`)
+            return S("func:" + self.cur_fi.cls.methods[name].fq)
         if name in mod.classes:
             return S("class:" + mod.name + "." + name)
         if name in mod.functions:
@@ -233,6 +237,12 @@ class RepoInterp:
             if isinstance(cfq, K):
                 mn, _, cn = cfq.v.rpartition(".")
                 ci = self.repo.cls(mn, cn, required=False)
+        if ci is not None and isinstance(obj, Ref) and obj.kind == "obj" and self.heap and ci.name.split(".")[-1].startswith("_") \
+                and not isinstance(getattr(node, "ctx", None), ast.Store):
+            m_b = self.repo.method(ci, attr)
+            par_call = getattr(node, "_mtsa_is_callee", False)
+            if m_b is not None and "property" not in m_b.decorators() and attr not in st.deref(obj) and not par_call:
+                return R("boundmethod", name=K(attr), self=obj)  # a bound method of a private helper object, as a value
         if ci is not None:
             for c in self.repo.mro(ci):
                 if attr in c.attrs:
@@ -250,6 +260,11 @@ class RepoInterp:
                         return self.inline_call(m, ast.Call(func=ast.Name(id=attr, ctx=ast.Load()), args=[], keywords=[]), obj, [], {}, st)
                     finally:
                         self.self_class = saved_c
+        if isinstance(obj, R) and obj.kind == "nt":
+            ci_n = self.class_of_nt(obj)
+            m_n = self.repo.method(ci_n, attr) if ci_n is not None else None
+            if m_n is not None and "property" in m_n.decorators():
+                return self.inline_call(m_n, ast.Call(func=ast.Name(id=attr, ctx=ast.Load()), args=[], keywords=[]), obj, [], {}, st)
         if attr == "_fields" and isinstance(obj, S) and obj.name.startswith("class:"):
             mn_, _, cn_ = obj.name[len("class:"):].rpartition(".")
             ci_f = self.repo.cls(mn_, cn_, required=False)
@@ -282,7 +297,30 @@ class RepoInterp:
             raw = next((f for f in self.repo.all_functions() if f.fq == fval.fields["fq"].v), None)
             if raw is None:
                 raise AnalysisError(f"undecorated function {fval.fields['fq'].v} not found")
+            if raw.cls is not None and args and "staticmethod" not in raw.decorators() and raw.positional_params()[:1] in (["self"], ["cls"]):
+                recv_r = args[0]
+                saved_r = self.self_class
+                if isinstance(recv_r, Ref) and recv_r.kind == "obj" and self._class_of_ref(recv_r, st) is not None:
+                    self.self_class = self._class_of_ref(recv_r, st)
+                elif isinstance(recv_r, S) and recv_r.name == "self" and self.self_class is None:
+                    self.self_class = raw.cls
+                try:
+                    return self._inline_call(raw, call, recv_r, list(args[1:]), kwargs, st)
+                finally:
+                    self.self_class = saved_r
             return self._inline_call(raw, call, None, args, kwargs, st)
+        if fval is None and isinstance(call.func, ast.Name) and call.func.id not in st.env and call.func.id in self.cur_fi.module.constants \
+                and call.func.id not in self.cur_fi.module.functions and call.func.id not in self.cur_fi.module.classes:
+            # a module-level constant that holds a callable value (operator.attrgetter(...), a lambda, functools.partial(...))
+            held_c = self.on_name(call.func.id, st)
+            if isinstance(held_c, R) and held_c.kind == "localfunc":
+                return self.interp._call_local(held_c, list(args), dict(kwargs), st)
+            if isinstance(held_c, R) and held_c.kind in ("accessor", "partial"):
+                fval = held_c
+        if isinstance(fval, R) and fval.kind == "boundmethod" and isinstance(fval.fields.get("self"), Ref) and isinstance(call.func, ast.Name):
+            v_bm = self.call_value(fval, call, args, kwargs, st)
+            if v_bm is not None:
+                return v_bm
         if isinstance(fval, R) and fval.kind == "partial" and isinstance(call.func, ast.Name) and not kwargs:
             return self.apply_callable(call.func, list(args), st)  # a local holding functools.partial(f, ...)
         if kwargs and "**" not in kwargs:
@@ -320,7 +358,24 @@ class RepoInterp:
             return v
         callee = self.resolve(call, fval)
         if callee is not None and (callee.fq in self.inline or callee.qualname in self.inline):
+            if isinstance(call.func, ast.Name) and isinstance(fval, S) and fval.name.startswith("func:") and callee.cls is not None and args \
+                    and "staticmethod" not in callee.decorators() and callee.positional_params()[:1] == ["self"]:
+                # a method held as a plain function and called with an explicit receiver: f(obj, a, b)
+                recv = args[0]
+                saved_sc = self.self_class
+                ci_r = self._class_of_ref(recv, st) if isinstance(recv, Ref) and recv.kind == "obj" else None
+                if ci_r is not None:
+                    self.self_class = ci_r
+                try:
+                    return self.inline_call(callee, call, recv, list(args[1:]), kwargs, st)
+                finally:
+                    self.self_class = saved_sc
             return self.inline_call(callee, call, fval if isinstance(call.func, ast.Attribute) else None, args, kwargs, st)
+        if not isinstance(call.func, (ast.Name, ast.Attribute)) and fval is not None:
+            # the callee is computed: TABLE[key](...), (f or g)(...)
+            v_cv = self.call_value(fval, call, args, kwargs, st)
+            if v_cv is not None:
+                return v_cv
         return None
 
     # ---- id(): addresses are reused ------------------------------------------------------------------
@@ -481,6 +536,67 @@ class RepoInterp:
                     dropping = False
                     out_seq.append(x)
             return K(tuple(out_seq))
+        # operator.attrgetter("a", "b.c") / operator.itemgetter(0, 2): first-class accessors
+        if fname in ("operator.attrgetter", "attrgetter", "operator.itemgetter", "itemgetter") and args and not kwargs and all(isinstance(a, K) for a in args):
+            return R("accessor", what=K("attr" if fname.endswith("attrgetter") else "item"), names=K(tuple(args)))
+        if isinstance(fval, R) and fval.kind == "accessor" and isinstance(call.func, ast.Name) and len(args) == 1 and not kwargs:
+            got: List[V] = []
+            for nm in fval.fields["names"].v:
+                cur: V = args[0]
+                if fval.fields["what"].v == "attr":
+                    for part in str(nm.v).split("."):
+                        tmp_name = "__acc_obj__"
+                        saved_acc = st.env.get(tmp_name)
+                        st.env[tmp_name] = cur
+                        try:
+                            cur = it.eval(ast.Attribute(value=ast.Name(id=tmp_name, ctx=ast.Load()), attr=part, ctx=ast.Load()), st)
+                        finally:
+                            if saved_acc is None:
+                                st.env.pop(tmp_name, None)
+                            else:
+                                st.env[tmp_name] = saved_acc
+                else:
+                    tmp_name = "__acc_obj__"
+                    saved_acc = st.env.get(tmp_name)
+                    st.env[tmp_name] = cur
+                    try:
+                        cur = it.eval(ast.Subscript(value=ast.Name(id=tmp_name, ctx=ast.Load()), slice=ast.Constant(nm.v), ctx=ast.Load()), st)
+                    finally:
+                        if saved_acc is None:
+                            st.env.pop(tmp_name, None)
+                        else:
+                            st.env[tmp_name] = saved_acc
+                got.append(cur)
+            return got[0] if len(got) == 1 else K(tuple(got))
+        if fname in ("cast", "typing.cast") and len(args) == 2 and not kwargs:
+            return args[1]  # typing.cast is the identity on its second argument
+        if fname == "object" and not args and not kwargs and isinstance(call.func, ast.Name):
+            return R("sentinel", site=K(id(call)))  # a fresh object used for its identity (`_MISSING = object()`)
+        if fname == "dict" and not args and kwargs and "**" not in kwargs and self.heap:
+            return st.alloc("dict", {K(k_): v_ for k_, v_ in kwargs.items()})  # dict(a=1, b=2)
+        if fname in ("itertools.islice", "islice") and 2 <= len(args) <= 4 and not kwargs and all(isinstance(a, K) and (a.v is None or isinstance(a.v, int)) for a in args[1:]):
+            seq_i = it.iterate(args[0], st)
+            if seq_i is None:
+                return None
+            return K(tuple(seq_i[slice(*[a.v for a in args[1:]])]))
+        if fname in ("itertools.accumulate", "accumulate") and 1 <= len(call.args) <= 2 and len(args) == len(call.args) and not kwargs:
+            seq_a = it.iterate(args[0], st)
+            if seq_a is None:
+                return None
+            out_a: List[V] = []
+            for x in seq_a:
+                if not out_a:
+                    out_a.append(x)
+                    continue
+                if len(call.args) == 2:
+                    nxt = self.apply_callable(call.args[1], [out_a[-1], x], st)
+                else:
+                    nxt = it.eval(ast.BinOp(left=ast.Name(id="__acc_l", ctx=ast.Load()), op=ast.Add(), right=ast.Name(id="__acc_r", ctx=ast.Load())),
+                                  _with_env(st, {"__acc_l": out_a[-1], "__acc_r": x}))
+                if nxt is None or isinstance(nxt, U):
+                    return None
+                out_a.append(nxt)
+            return K(tuple(out_a))
         if fname in ("functools.reduce", "reduce") and 2 <= len(call.args) <= 3 and len(args) == len(call.args) and not kwargs:
             seq = it.iterate(args[1], st)
             if seq is None:
@@ -573,7 +689,7 @@ class RepoInterp:
         if isinstance(call.func, (ast.Name, ast.Attribute)) and not isinstance(fval, (R, Ref, K)):
             dn = dotted(call.func) or ""
             ci_nt = self.repo.resolve_class(self.cur_fi.module, dn) if dn else None
-            if ci_nt is None and isinstance(fval, S) and fval.name.startswith("class:"):
+            if ci_nt is None and isinstance(fval, S) and fval.name.startswith("class:") and isinstance(call.func, ast.Name):
                 mn_c, _, cn_c = fval.name[len("class:"):].rpartition(".")
                 ci_nt = self.repo.cls(mn_c, cn_c, required=False)  # cls(...) inside a classmethod
             if ci_nt is not None and self._nt_fields(ci_nt) is not None:
@@ -643,6 +759,17 @@ class RepoInterp:
                 obj = st.alloc("obj", {"__class__": K(callee0.cls.fq)})
                 self.inline_call(callee0, call, obj, args, kwargs, st)
                 return obj
+        if fname == "issubclass" and len(args) == 2 and isinstance(args[0], S) and args[0].name.startswith("excclass:"):
+            from mtsa.absint import exc_is
+            targets = list(args[1].v) if isinstance(args[1], K) and isinstance(args[1].v, tuple) else [args[1]]
+            names_t = [t.name.split(":")[-1].split(".")[-1] for t in targets if isinstance(t, S)]
+            if len(names_t) == len(targets):
+                return K(any(exc_is(args[0].name[len("excclass:"):], n_, self.interp.exc_parents) for n_ in names_t))
+        if meth is not None and isinstance(fval, Ref) and fval.kind == "obj" and isinstance(st.deref(fval), dict) and meth in st.deref(fval):
+            held_a = st.deref(fval)[meth]  # an attribute that holds a callable (a closure, a bound method, a function)
+            v_a = self.call_value(held_a, call, args, kwargs, st)
+            if v_a is not None:
+                return v_a
         if meth is not None and isinstance(fval, Ref) and fval.kind == "obj":
             cfq = st.deref(fval).get("__class__")
             if isinstance(cfq, K):
@@ -725,19 +852,37 @@ class RepoInterp:
         the arguments, filled only by calls that returned (as in CPython) - so histories see a remembered answer."""
         decos = [d.split("(")[0] for d in callee.decorators()]
         pkg_decos = [self._package_decorator(callee, d) for d in getattr(callee.node, "decorator_list", [])]
-        if self.heap and pkg_decos and all(p is not None for p in pkg_decos) and callee.cls is None:
+        if self.heap and pkg_decos and all(p is not None for p in pkg_decos):
             # decorated with functions of the package itself (`@_cached_per_file`): the decorator is interpreted once per
             # process with the undecorated function as its argument; what it returns is what callers call
             dkey = f"__global__:__deco__:{callee.fq}"
             if dkey not in st.env:
                 obj: V = R("rawfunc", fq=K(callee.fq))
-                for dfi in reversed(pkg_decos):
+                for dfi, dnode in reversed(list(zip(pkg_decos, callee.node.decorator_list))):  # type: ignore[attr-defined]
                     fake_d = ast.Call(func=ast.Name(id=dfi.qualname, ctx=ast.Load()), args=[], keywords=[])  # type: ignore[union-attr]
-                    obj = self._inline_call(dfi, fake_d, None, [obj], {}, st)  # type: ignore[arg-type]
+                    if isinstance(dnode, ast.Call):
+                        # a decorator factory: `@contained("message")` - the factory is called with the written arguments (in
+                        # the module's own context), what it returns is applied to the function
+                        saved_fi = self.cur_fi
+                        self.cur_fi = FunctionInfo(callee.module, "<module>", ast.parse("def _m(): pass").body[0])
+                        try:
+                            f_args = [self.interp.eval(a_, st) for a_ in dnode.args]
+                            f_kw = {k_.arg: self.interp.eval(k_.value, st) for k_ in dnode.keywords if k_.arg}
+                        finally:
+                            self.cur_fi = saved_fi
+                        deco_v = self._inline_call(dfi, fake_d, None, f_args, f_kw, st)  # type: ignore[arg-type]
+                        applied = self.call_value(deco_v, fake_d, [obj], {}, st)
+                        if applied is None:
+                            raise AnalysisError(f"{callee.fq}: what the decorator factory {dfi.qualname} returns cannot be applied")  # type: ignore[union-attr]
+                        obj = applied
+                    else:
+                        obj = self._inline_call(dfi, fake_d, None, [obj], {}, st)  # type: ignore[arg-type]
                 st.env[dkey] = obj
             wrapped = st.env[dkey]
+            is_meth = callee.cls is not None and "staticmethod" not in callee.decorators() and callee.positional_params()[:1] in (["self"], ["cls"])
+            full_args = ([fval if fval is not None else S("self")] if is_meth else []) + list(args)
             if isinstance(wrapped, R) and wrapped.kind == "localfunc":
-                return self.interp._call_local(wrapped, list(args), dict(kwargs), st)
+                return self.interp._call_local(wrapped, full_args, dict(kwargs), st)
             if isinstance(wrapped, R) and wrapped.kind == "rawfunc" and wrapped.fields["fq"] == K(callee.fq):
                 return self._inline_call(callee, call, fval, args, kwargs, st)
             raise AnalysisError(f"{callee.fq}: its decorator returns something the interpreter cannot call ({wrapped!r:.80})")
@@ -761,6 +906,8 @@ class RepoInterp:
 
     def _package_decorator(self, callee: FunctionInfo, d: ast.AST) -> Optional[FunctionInfo]:
         """the module-level function of the package a bare decorator name denotes, else None"""
+        if isinstance(d, ast.Call):
+            d = d.func
         if not isinstance(d, ast.Name):
             return None
         mod = callee.module
@@ -828,6 +975,118 @@ class RepoInterp:
         if outer["term"] is not None:
             cs.term = outer["term"]
         return [cs]
+
+    def on_with_object(self, cm: Ref, target: Optional[ast.AST], body: List[ast.stmt], st: State) -> Optional[List[State]]:
+        """`with <instance of a package class that defines __enter__/__exit__> [as target]: body` - the protocol is
+        interpreted: __enter__(), the body, then __exit__(type, value, tb) with the exception class the body raised (or
+        three Nones); an exception raised by __exit__ replaces the body's, a true result suppresses it."""
+        ci = self._class_of_ref(cm, st)
+        if ci is None:
+            return None
+        m_enter, m_exit = self.repo.method(ci, "__enter__"), self.repo.method(ci, "__exit__")
+        if m_enter is None or m_exit is None:
+            return None
+        it = self.interp
+        fake = ast.Call(func=ast.Attribute(value=ast.Name(id="__cm__", ctx=ast.Load()), attr="__enter__", ctx=ast.Load()), args=[], keywords=[])
+        saved_c = self.self_class
+        self.self_class = ci
+        try:
+            entered = self.inline_call(m_enter, fake, cm, [], {}, st)
+        finally:
+            self.self_class = saved_c
+        if st.pending is not None:
+            return [st]
+        if target is not None:
+            it._assign(target, entered, st)
+        outs = it.run(body, st)
+        res: List[State] = []
+        for o in outs:
+            raised = o.term is not None and o.term[0] == "raise"
+            term = o.term
+            o.term = None
+            if raised:
+                ex_args: List[V] = [S("excclass:" + str(term[1])), S("exc:" + str(term[1])), S("traceback")]
+            else:
+                ex_args = [K(None), K(None), K(None)]
+            self.self_class = ci
+            try:
+                r_exit = self.inline_call(m_exit, fake, cm, ex_args, {}, o)
+            finally:
+                self.self_class = saved_c
+            if o.pending is not None:
+                o.term = ("raise", o.pending, "")
+                o.pending = None
+            elif raised and it._value_truth(fake, r_exit, o) is True:
+                o.term = None  # suppressed
+            elif raised and isinstance(r_exit, U) and not isinstance(r_exit, K):
+                raise AnalysisError(f"{ci.fq}.__exit__: whether the exception is suppressed is not decided")
+            else:
+                o.term = term
+            res.append(o)
+        return res
+
+    def _class_of_ref(self, obj: Ref, st: State) -> Any:
+        cfq = st.deref(obj).get("__class__") if isinstance(st.deref(obj), dict) else None
+        if isinstance(cfq, K):
+            mn, _, cn = cfq.v.rpartition(".")
+            return self.repo.cls(mn, cn, required=False)
+        return None
+
+    def call_value(self, fv: V, call: ast.Call, args: List[V], kwargs: Dict[str, V], st: State) -> Optional[V]:
+        """call a first-class callable value: a closure, a bound method of a heap object, a function token, an accessor"""
+        if isinstance(fv, R) and fv.kind == "localfunc":
+            return self.interp._call_local(fv, list(args), dict(kwargs), st)
+        if isinstance(fv, R) and fv.kind == "boundmethod" and isinstance(fv.fields.get("self"), Ref):
+            obj = fv.fields["self"]
+            ci = self._class_of_ref(obj, st)
+            m = self.repo.method(ci, fv.fields["name"].v) if ci is not None else None
+            if m is None:
+                return None
+            saved = self.self_class
+            self.self_class = ci
+            try:
+                return self.inline_call(m, call, obj, list(args), dict(kwargs), st)
+            finally:
+                self.self_class = saved
+        if isinstance(fv, S) and fv.name.startswith("func:"):
+            fq = fv.name[5:]
+            callee = next((f for f in self.repo.all_functions() if f.fq == fq), None)
+            if callee is not None and (callee.fq in self.inline or callee.qualname in self.inline):
+                if callee.cls is not None and args and "staticmethod" not in callee.decorators() and callee.positional_params()[:1] == ["self"]:
+                    recv = args[0]
+                    saved_sc = self.self_class
+                    ci_r = self._class_of_ref(recv, st) if isinstance(recv, Ref) and recv.kind == "obj" else None
+                    if ci_r is not None:
+                        self.self_class = ci_r
+                    try:
+                        return self.inline_call(callee, call, recv, list(args[1:]), dict(kwargs), st)
+                    finally:
+                        self.self_class = saved_sc
+                return self.inline_call(callee, call, None, list(args), dict(kwargs), st)
+        if isinstance(fv, S) and fv.name.startswith(("builtin:", "mod:")) and not kwargs:
+            # a builtin or library function held as a value (`attr_getter = getattr`): called as if written by name, so that
+            # the scenario's hooks for that name answer
+            dotted_name = fv.name.split(":", 1)[1]
+            parts = dotted_name.split(".")
+            fexpr: ast.expr = ast.Name(id=parts[0], ctx=ast.Load())
+            for p_ in parts[1:]:
+                fexpr = ast.Attribute(value=fexpr, attr=p_, ctx=ast.Load())
+            if parts[0] in st.env:
+                return None
+            names = [f"__cv{i}" for i in range(len(args))]
+            saved = {n_: st.env.get(n_) for n_ in names}
+            for n_, a_ in zip(names, args):
+                st.env[n_] = a_
+            try:
+                r_cv = self.interp.eval(ast.Call(func=fexpr, args=[ast.Name(id=n_, ctx=ast.Load()) for n_ in names], keywords=[]), st)
+            finally:
+                for n_, v_ in saved.items():
+                    if v_ is None:
+                        st.env.pop(n_, None)
+                    else:
+                        st.env[n_] = v_
+            return None if isinstance(r_cv, U) and st.pending is None else r_cv
+        return None
 
     def _inline_call(self, callee: FunctionInfo, call: ast.Call, fval: Optional[V], args: List[V], kwargs: Dict[str, V], st: State, generator_ok: bool = False) -> V:
         if self.depth >= self.max_depth:
@@ -994,6 +1253,13 @@ class _OracleInterp(Interp):
                         f"(unrecognised condition atom; the rule's abstraction does not cover it)"
                     )
         return res
+
+
+def _with_env(st: State, extra: Dict[str, V]) -> State:
+    sub = st.fork()
+    sub.effects, sub.heap, sub._next = st.effects, st.heap, st._next
+    sub.env.update(extra)
+    return sub
 
 
 def platform_subscript(obj: V, key: V) -> Optional[V]:
